@@ -292,7 +292,7 @@ func compare(m, t side) (*difference, compareStats) {
 			// name the root cause: the smallest set of deviation switches under which the model reads like the text
 			class := "boolean-structure-differs"
 			best := -1
-			for mask := 1; mask < 32; mask++ {
+			for mask := 1; mask < deviationMasks; mask++ {
 				if best >= 0 && bits.OnesCount(uint(mask)) >= bits.OnesCount(uint(best)) {
 					continue
 				}
